@@ -104,14 +104,14 @@ pub fn gen_pure(rng: &mut Rng) -> PCase {
     };
     let mut glyphs = vec![];
     for gi in 0..n_glyphs {
-        let n_anchors = rng.below(5);
         let mut names: Vec<String> = vec![];
-        // roles make matching pairs likely
-        let role = rng.below(5);
+        // roles make matching pairs likely: the first glyphs are a base, a mark, (often) a ligature
+        let role = match gi { 0 => 0, 1 => 1, 2 => if rng.chance(1, 2) { 2 } else { rng.below(5) }, _ => rng.below(5) };
+        let n_anchors = if role <= 2 { 1 + rng.below(4) } else { rng.below(5) };
         for _ in 0..n_anchors {
             let n = match role {
-                0 => rng.pick(&["top", "bottom", "ogonek", "center"]).to_string(),
-                1 => rng.pick(&["_top", "_bottom", "_ogonek", "top", "bottom", "_center"]).to_string(),
+                0 => rng.pick(&["top", "bottom", "top", "bottom", "ogonek", "center"]).to_string(),
+                1 => rng.pick(&["_top", "_bottom", "_top", "_ogonek", "top", "bottom", "_center"]).to_string(),
                 2 => rng.pick(&["top_1", "top_2", "bottom_1", "bottom_2", "_2", "top_3", "top_+1", "top"]).to_string(),
                 _ => rng.pick(&pool).to_string(),
             };
